@@ -83,6 +83,12 @@ class Report:
     def violations(self) -> List[Obligation]:
         return [o for o in self.obligations if not o.ok]
 
+    def unlisted(self) -> List["Obligation"]:
+        """violations that known_findings.json does not list: what makes a check exit 1"""
+        known = load_known_findings()
+        listed = {(f["property"], f["rule"], f["construct"]) for f in known.get("findings", [])}
+        return [o for o in self.violations if (self.prop_id, o.rule, o.construct) not in listed]
+
     def rule_counts(self) -> Dict[str, int]:
         out: Dict[str, int] = {}
         for o in self.obligations:
